@@ -135,24 +135,24 @@ def check(c):
                  and line_var not in {x.id for x in ast.walk(d.value)
                                       if isinstance(x, ast.Name)},
                  c.where(d, pg), '')
-        skips = [n for n in ast.walk(loop) if isinstance(n, ast.Continue)
-                 and c.holds(n, AnyOf(f'!{v}', f'{v}.isspace()'))]
-        blank = [n for n in skips if c.case_covered(
-            c.idx.parent[id(n)].test, [f'!{v}'], n) and c.case_covered(
-            c.idx.parent[id(n)].test, [f'{v}.isspace()'], n)]
-        c.floor('C14.comments', f'`continue` when {v} is empty or blank',
-                len(blank), 1)
+        # the append is reached only for a line that is non-empty and not
+        # blank *after* stripping (`if not v or v.isspace(): continue`, or
+        # the rest of the iteration under the negated test)
+        c.guard('C14.comments', a, [v, f'!{v}.isspace()'], pg,
+                what='blank-after-stripping lines are dropped;',
+                at_entry=True)
+        tests = [n for n in ast.walk(loop) if isinstance(n, ast.Call)
+                 and norm(n) == f'{v}.isspace()']
+        c.floor('C14.comments', f'{v}.isspace() test', len(tests), 1)
         for s in strips:
-            for k in blank:
+            for k in tests:
                 c.ob('C14.comments', c.key(k, pg) + ' tests the line after '
                      'comment stripping', cfgp.dominated_by(
-                         c.idx.parent[id(k)], lambda x, s=s: x is s),
+                         c.idx.stmt_of(k), lambda x, s=s: x is s),
                      c.where(k, pg), '')
-                c.ob('C14.comments', c.key(a, pg) + ' after the blank-line '
-                     'test', cfgp.dominated_by(
-                         c.idx.stmt_of(a),
-                         lambda x, k=k: x is c.idx.parent[id(k)]),
-                     c.where(a, pg), '')
+            c.ob('C14.comments', c.key(a, pg) + ' after comment stripping',
+                 cfgp.dominated_by(c.idx.stmt_of(a), lambda x, s=s: x is s),
+                 c.where(a, pg), '')
     rc = c.K.class_attr_node('GraphParser', 'REC_COMMENT')
     c.ob('C14.comments', f'{GP}:GraphParser.REC_COMMENT strips from # to the '
          'end of the line', isinstance(rc, ast.Call) and bool(rc.args)
